@@ -110,6 +110,10 @@ pub struct Program {
     pub ctors: Vec<Ctor>,
     pub traits: Vec<TraitDef>,
     pub impls: Vec<ImplDef>,
+    /// impls list their associated type values in the reverse of the trait's declaration order (the order is not
+    /// meaningful: values are matched to declarations by name)
+    #[serde(default)]
+    pub assoc_values_reversed: bool,
 }
 
 #[derive(Clone, Debug, Serialize, Deserialize)]
@@ -395,7 +399,11 @@ pub fn print_impl(p: &Program, im: &ImplDef) -> String {
     let tr = &p.traits[im.head.tr];
     let targs = if im.head.args.len() > 1 { format!("<{}>", pr.list(&im.head.args[1..])) } else { String::new() };
     let wc = if im.wcs.is_empty() { String::new() } else { format!(" where {}", im.wcs.iter().map(|x| pr.tref(x)).collect::<Vec<_>>().join(", ")) };
-    let vals = im.values.iter().enumerate().map(|(k, v)| format!("type {} = {}; ", tr.assocs[k].0, pr.ty(v))).collect::<String>();
+    let mut vals: Vec<String> = im.values.iter().enumerate().map(|(k, v)| format!("type {} = {}; ", tr.assocs[k].0, pr.ty(v))).collect();
+    if p.assoc_values_reversed {
+        vals.reverse();
+    }
+    let vals = vals.concat();
     format!(
         "{}impl{} {}{}{} for {}{} {{ {}}}",
         if im.upstream { "#[upstream] " } else { "" },
